@@ -412,12 +412,19 @@ func streamBuiltins(o *Out, r *rand.Rand, n int, thorough bool) {
 		{`toRune("")`, rune(0)},
 		{`toChar(toRune("a"))`, "a"},
 		{`toString(toByteSlice("hey"))`, "hey"},
+		// a conversion result is a value of its own (Go's string(b) copies): later stores into the source do not show
+		{"b = toByteSlice(\"abc\")\ns = toString(b)\nb[0] = 88\ns", "abc"},
+		{"b = toByteSlice(\"abc\")\ns = toString(b)\nb[0] = 88\n[s, toString(b)]", []interface{}{"abc", "Xbc"}},
+		{"b = toByteSlice(\"k1\")\nm = {}\nm[toString(b)] = 1\nb[1] = 50\n[m[\"k1\"], m[\"k2\"]]", []interface{}{int64(1), nil}},
+		{"s = \"abc\"\nb = toByteSlice(s)\nb[0] = 88\n[s, toString(b)]", []interface{}{"abc", "Xbc"}},
+		{"l = [1, 2]\nt = toIntSlice(l)\nl[0] = 9\nt[1] = 7\n[l, t]", []interface{}{[]interface{}{int64(9), int64(2)}, []int64{1, 7}}},
+		{"r = toRuneSlice(\"ab\")\nc = toChar(r[0])\nr[0] = 122\nc", "a"},
 	}
 	for _, c := range sliceCases {
 		out := runScript(c.src, nil, coreEnv)
 		o.Sum.Evaluations++
 		if out.panicked || out.err != nil || !reflect.DeepEqual(out.val, c.want) {
-			o.Fail(Failure{Oracle: "go-conversion", Key: "slice-form:" + c.src, Input: c.src, Detail: fmt.Sprintf("want %#v got %#v err=%v panic=%v", c.want, out.val, out.err, out.panicVal)})
+			o.Fail(Failure{Oracle: "go-conversion", Key: "slice-form:" + firstLine(c.src), Input: c.src, Detail: fmt.Sprintf("want %#v got %#v err=%v panic=%v", c.want, out.val, out.err, out.panicVal)})
 		}
 	}
 }
